@@ -14,7 +14,7 @@ from vmon.libutil import load_definition, monitored
 
 LEVEL = "exploration"
 SHARDS = {"quick": 16, "thorough": 16}
-MUST = ["outcome.ok", "outcome.unrecognized", "unrec.abstract-dead-end", "unrec.ambiguous", "end.concrete-dead-end",
+MUST = ["nested.twice", "nested.diamond", "nested.shared", "root_override.generator_runs", "root_override.single_parses", "root_override.default_root_afterwards", "outcome.ok", "outcome.unrecognized", "unrec.abstract-dead-end", "unrec.ambiguous", "end.concrete-dead-end",
         "end.leaf", "depth.>=2", "nested.expanded", "apid-name.other", "generator.error_objects", "trees.enumerated", "reparse.same_raw_object"]
 RULE = ("document = container tree; packet = header + steering fields + one byte per container on the path; the library's "
         "outcome (item names in order, values, header/user_data views, unrecognized+partial data, or normal end) must "
@@ -77,13 +77,23 @@ def tree_doc(parents, crits, abstracts, root_abstract, apid_name="PKT_APID", nes
         ts.append(ir.PType("NB_Type", "integer", ir.IntEnc(8, "unsigned", False)))
         ps.append(ir.Param("NB", "NB_Type"))
         conts.append(ir.Container("NestedK", (("p", "NB"),)))
+    if nested == "diamond":
+        # two nested blocks sharing a sub-container: K0 = [NestedA = [NestedK, NA]] [NestedB = [NestedK, NB2]] X0
+        for n_ in ("NA", "NB2"):
+            ts.append(ir.PType(n_ + "_Type", "integer", ir.IntEnc(8, "unsigned", False)))
+            ps.append(ir.Param(n_, n_ + "_Type"))
+        conts.append(ir.Container("NestedA", (("c", "NestedK"), ("p", "NA"))))
+        conts.append(ir.Container("NestedB", (("c", "NestedK"), ("p", "NB2"))))
     for i, (par, ci, ab) in enumerate(zip(parents, crits, abstracts)):
         tn = f"X{i}_Type"
         ts.append(ir.PType(tn, "integer", ir.IntEnc(8, "unsigned", False)))
         ps.append(ir.Param(f"X{i}", tn))
         entries = [("p", f"X{i}")]
         if nested and i == 0:
-            entries = [("c", "NestedK"), ("p", f"X{i}")]
+            entries = {"twice": [("c", "NestedK"), ("p", f"X{i}"), ("c", "NestedK")],      # the same reference twice in one entry list
+                       "diamond": [("c", "NestedA"), ("c", "NestedB"), ("p", f"X{i}")]}.get(nested, [("c", "NestedK"), ("p", f"X{i}")])
+        elif nested == "shared" and i == 1:
+            entries = [("p", f"X{i}"), ("c", "NestedK")]      # a second path container referencing the same nested container
         conts.append(ir.Container(f"K{i}", tuple(entries), "CCSDSPacket" if par < 0 else f"K{par}", subst(POOL[ci], apid_name), ab))
     conts.append(ir.Container("CCSDSPacket", tuple(root_entries), None, None, root_abstract))
     return ir.Doc(tuple(ts), tuple(ps), tuple(conts))
@@ -92,7 +102,7 @@ def tree_doc(parents, crits, abstracts, root_abstract, apid_name="PKT_APID", nes
 def packet_for(doc, s1, s2, apid, out_len_hint=None):
     """header + S1 S2 PAD + enough bytes for any path (extra bytes are fine: consumption is not C05's business)"""
     from space_packet_parser import packets as P
-    body = bytes([(s1 << 6) | (s2 << 4) | 0x5]) + bytes(range(0x11, 0x11 + 6))
+    body = bytes([(s1 << 6) | (s2 << 4) | 0x5]) + bytes(range(0x11, 0x11 + 12))
     return bytes(P.create_ccsds_packet(body, apid=apid, sequence_count=s1 * 4 + s2))
 
 
@@ -141,6 +151,26 @@ def exercise(ctx, doc, shape_sig, apids=(100,), via_generator=False, sample=Fals
                               {"shape": shape_sig, "s1": s1, "s2": s2, "apid": apid, "raw": raw, "model_path": out.path,
                                "model_status": out.status, "model_unrec": out.unrec_kind,
                                "containers": [(c.name, c.base, c.abstract, repr(c.criteria)[:120]) for c in doc.containers]})
+    # ---- a per-call root override (root_container_name=...) applies to that call only: decode from another container, then
+    # decode again without an override - from the definition's own root - and judge against the same model outcomes
+    if len(doc.containers) > 1 and (via_generator or sum(map(ord, shape_sig)) % 3 == 0):
+        other = doc.containers[1 + sum(map(ord, shape_sig)) % (len(doc.containers) - 1)].name
+        stream = b"".join(r for r, _ in raws)
+        ov = monitored(lambda: list(defn.packet_generator(stream, root_container_name=other, yield_unrecognized_packet_errors=True)))
+        ctx.count("root_override.generator_runs")
+        for (raw, _), k_ in zip(raws, range(3)):
+            o2 = ref.walk(doc, raw, other)
+            st2, pk2 = harness.parse_single(defn, raw, other)
+            ctx.count("root_override.single_parses")
+            for mech, msg in harness.judge_single(ctx, info, raw, st2, pk2, o2):
+                ctx.violation("root-override/" + mech, f"decoding from container {other}: " + msg, {"shape": shape_sig, "root": other, "raw": raw})
+        for raw, out in raws:
+            step, pkt = harness.parse_single(defn, raw)
+            ctx.count("root_override.default_root_afterwards")
+            for mech, msg in harness.judge_single(ctx, info, raw, step, pkt, out):
+                ctx.violation("after-root-override/" + mech, f"after a generator run with root_container_name={other!r}, a decode without an override: " + msg,
+                              {"shape": shape_sig, "override": other, "raw": raw, "model_path": out.path})
+                break
     ctx.sig(shape_sig, "".join(outcomes))
     if sample:
         ctx.sample({"shape": shape_sig, "outcomes_for_16_assignments": "".join(outcomes),
@@ -187,7 +217,10 @@ def run(ctx):
             apid_name = rng.choice(["PKT_APID", "PKT_APID", "APID", "ApplicationId"])
             if apid_name != "PKT_APID":
                 ctx.count("apid-name.other")
-            doc = tree_doc(parents, crits, abstracts, rng.random() < 0.6, apid_name, nested=rng.random() < 0.4)
+            nested = rng.choice([False, False, False, True, True, "twice", "diamond", "shared"])
+            if nested in ("twice", "diamond", "shared"):
+                ctx.count(f"nested.{nested}")
+            doc = tree_doc(parents, crits, abstracts, rng.random() < 0.6, apid_name, nested=nested)
             exercise(ctx, doc, f"k{k}/{parents}/{crits}/{abstracts}", apids=(100,), via_generator=(t % 7 == 0))
     # ---- header-name probe: abstract root, nothing matches, APID parameter not called PKT_APID -------------------------
     for apid_name in ("APID", "PKT_APID", "CCSDS_APID"):
